@@ -722,3 +722,18 @@ Definition analyse_ext (s : system) (externals : list (vref * list vref)) : outc
   end.
 
 Definition analyse (s : system) : outcome := analyse_ext s [].
+
+(* the first pass alone (sweeps with checkNlaSystems = false until nothing changes): loopNumber 0 never starts
+   another pass.  [Some true]: it gave a type to every equation. *)
+Definition first_pass (s : system) : option (cstate * list ieq) :=
+  match build s with
+  | None => None
+  | Some (ivs0, es0) =>
+      let vst := analyse_asts s ivs0 es0 in
+      loop s (loop_fuel es0) 0 false (mkCs (vs_ivs vst) 0 0) es0
+  end.
+Definition first_pass_complete (s : system) : option bool :=
+  match first_pass s with
+  | None => None
+  | Some (_, es) => Some (count_unknown es =? 0)
+  end.
